@@ -101,6 +101,21 @@ class FakePin:
         return self._needs
 
 
+def real_pin(pin=b"1234567a", needs_change=False):
+    """The manager's own pin object (ledger.pin.FileBasedPin, every method of it) holding `pin` as if
+    it had been loaded from its file; the file itself is not the subject in this world."""
+    import logging
+    from ledger.pin import FileBasedPin
+    p = FileBasedPin.__new__(FileBasedPin)
+    p.logger = logging.getLogger("pin")
+    p._path = "/nonexistent/pin.txt"
+    p._pin = pin
+    p._needs_change = needs_change
+    p._changing = False
+    p._new_pin = None
+    return p
+
+
 class World:
     def __init__(self, ch, device_cfg=None, v1=False, fault_fn=None, pin=None,
                  device_cls=LedgerDevice, keep_events=0, seed=b"seed"):
@@ -116,7 +131,7 @@ class World:
         self.sleep_hook = None
         self.link = HidLink(self.device, self.clock, self.log, fault_fn=fault_fn)
         self.v1 = v1
-        self.pin = pin if pin is not None else FakePin()
+        self.pin = pin if pin is not None else real_pin()
         from comm.platform import Platform
         Platform.set(Platform.LEDGER)        # what manager_ledger.py does before anything else
         self.dongle = _hsm2dongle_mod.HSM2Dongle(False)
